@@ -32,4 +32,40 @@ theorem C09_total_is_sum (vf : VF) (h : vf.ready ≥ OPENED) (hs : vf.seekable =
   unfold sumLen
   exact foldl_map_eq _ _ _ 0 (fun i hi => pcmTotal_link vf h hs i (List.mem_range.mp hi))
 
+theorem find_range_first (n i : Nat) (P : Nat → Bool) (hi : i < n) (hp : P i = true) (hmin : ∀ j, j < i → P j = false) :
+    (List.range n).find? P = some i := by
+  induction n with
+  | zero => omega
+  | succ m ih =>
+      rw [List.range_succ, List.find?_append]
+      by_cases him : i < m
+      · rw [ih him]; rfl
+      · have : i = m := by omega
+        subst this
+        have hnone : (List.range i).find? P = none := by
+          rw [List.find?_eq_none]
+          intro x hx
+          have := hmin x (List.mem_range.mp hx)
+          simp [this]
+        rw [hnone]
+        simp [hp]
+
+/-- every page is attributed to the right link: with distinct serial numbers in the link table, the serial number of link `i` is
+    looked up as link `i` (what `_fetch_and_process_packet` does at a link boundary to find set-up, channel count and length) -/
+theorem C09_serial_finds_its_link (vf : VF) (i : Nat) (hi : i < vf.links)
+    (hd : ∀ j, j < i → vf.serialnos[j]! ≠ vf.serialnos[i]!) : linkOf vf vf.serialnos[i]! = some i := by
+  unfold linkOf
+  apply find_range_first _ _ _ hi
+  · simp
+  · intro j hj; simpa using hd j hj
+
+/-- and a serial number that is in no link is in none -/
+theorem C09_foreign_serial_is_ignored (vf : VF) (s : Int) (h : ∀ j, j < vf.links → vf.serialnos[j]! ≠ s) : linkOf vf s = none := by
+  unfold linkOf
+  rw [List.find?_eq_none]
+  intro x hx
+  simpa using h x (List.mem_range.mp hx)
+
+example : linkOf { links := 3, serialnos := #[11, 22, 33] } 22 = some 1 ∧ linkOf { links := 3, serialnos := #[11, 22, 33] } 44 = none := by decide
+
 end Vorbis.Props.C09
